@@ -214,6 +214,10 @@ def execute(ctx, case: dict) -> None:
     try:
         if level == "ace":
             ace = Ace(case["text"], platform="ios")
+            for n, addr in enumerate((ace.srcaddr, ace.dstaddr)):
+                if addr.addrgroup and case.get("group_members"):
+                    addr.items = list(case["group_members"][n])
+                    ctx.count("group_members_attached")
             ace.ungroup_ports()
             for edit in case.get("edits", []):
                 # history on one object: edit through a sub-object setter, then split again
@@ -288,7 +292,8 @@ def gen_cases(ctx):
         roll = rng.random()
         if roll < 0.35:
             text, sig = _multi_ace(rng)
-            case = {"level": "ace", "text": text, "sig": sig}
+            case = {"level": "ace", "text": text, "sig": sig,
+                    "group_members": [["10.1.0.0 0.0.0.255", "host 10.1.1.1"], ["10.2.0.0 0.0.255.255", "host 10.2.2.2", "host 10.2.2.3"]]}
             if rng.random() < 0.5:
                 case["edits"] = [rng.choice([["dstport", "eq 7 8 9"], ["dstport", "eq 11"], ["srcport", "eq 5 6"], ["srcport", "range 3 9"],
                                              ["srcaddr", "host 10.99.0.1"], ["option", ""], ["option", "log"], ["dstport", "neq 5"]])
